@@ -348,8 +348,10 @@ def parseAndWriteOutput(file: str, output_dir: str, config: Config,
                 with open(output_file, "w") as output:
                     output.writelines(json_string)
 
-                    if delete_after_parsing:
-                        os.remove(file)
+                # Only remove the original once the output file has been
+                # written, flushed and closed without error.
+                if delete_after_parsing:
+                    os.remove(file)
             else:
                 print(f"No PEL parsed for {file}", file=sys.stderr)
         except Exception as e:
@@ -406,10 +408,10 @@ def deletePELFromPELId(path: str, pelID: str) -> None:
         print("PEL not found")
 
 
-def parseAndPrintPELFile(file_path: str, config: Config, exit_on_error: bool) -> None:
+def parseAndPrintPELFile(file_path: str, config: Config, exit_on_error: bool) -> bool:
     """
     Parses a PEL file and prints the JSON string representation.
-    Returns: None
+    Returns: True if the PEL was parsed and printed, False otherwise.
     """
     try:
         with open(file_path, 'rb') as fd:
@@ -421,8 +423,10 @@ def parseAndPrintPELFile(file_path: str, config: Config, exit_on_error: bool) ->
                     print(json_string)        
                 else:
                     printPELInHexFormat(data)
+                return True
     except Exception as e:
         print(f"Exception: No PEL parsed for {file_path}: {e}", file=sys.stderr)
+    return False
 
 
 def parsePelFromID(path: str, config: Config) -> None:
@@ -870,8 +874,11 @@ def main():
         config.extension = args.extension
 
     if args.file:
-        parseAndPrintPELFile(args.file, config, True)
-        if args.clean:
+        printed = parseAndPrintPELFile(args.file, config, True)
+        if args.clean and printed:
+            # Make sure the output really left the process before the
+            # original is removed.
+            sys.stdout.flush()
             os.remove(args.file)
         sys.exit(0)
 
